@@ -246,6 +246,7 @@ package ociserver
 //@ iface-ensures BlobWriter.ID() result != ""
 
 //@ func (*registry).locationForUploadID
+//@   modifies nothing
 //@   requires vRepo(repo) && uploadID != ""
 
 // The default error writer installed by New.
